@@ -221,8 +221,9 @@ def t_div_den(E, kind, power_of_two=False):
         r = R div 2^i,   lexp = lexp_entry - i,   0 <= Q < 2^i (Q = 0 for i = 0),   0 <= w,
         0 <= 2*Q*R - (L - w)*2^i <= max(i-1,0)*2^i  (the quotient bits account for L - w, up to the truncation)
         w <= 2*r + i  (2*r - 1 on entry)             (the remainder stays small)
-    On exit (i = p, r = 0) this gives |2*Q*R - L*2^p| <= p*2^p: the quotient mantissa is
-    L/R * 2^(p-1) within p/2 units of its last place - with 8 guard bits that is < 0.13 ulp
+        R = r*2^i -> w <= 2*r;   2*Q*R = (L-w)*2^i -> w <= 2*r + 1     (slack only from truncation already accounted)
+    On exit (i = p, r = 0) this gives |2*Q*R - L*2^p| < p*2^p (strictly): the quotient mantissa is
+    L/R * 2^(p-1) within less than p/2 units of its last place - with 8 guard bits that is < 0.13 ulp
     of the result before rounding."""
     cls = CLS[kind]
     p = 8 * (cls.size - 1) + 8          # width of a denormalised mantissa: 32 or 64
@@ -250,9 +251,12 @@ def t_div_den(E, kind, power_of_two=False):
             acc = 2 * QR - (L - w) * P
             # step 0 divides by R itself (no truncation), so i steps lose less than i-1 units
             # a divisor mantissa that is a power of two is never truncated: the accounting is exact
+            # the remainder can exceed twice the current divisor only through truncation that the accounting
+            # has already seen: no truncation so far (R = r*2^i) -> w <= 2r; nothing accounted yet -> w <= 2r+1
             per_i.append(Implies(it == i, And(r == R // P, Q < P if i else Q == 0, acc >= 0,
                                               acc <= (0 if power_of_two else max(i - 1, 0) * P),
-                                              w <= 2 * r + i - (1 if i == 0 else 0))))
+                                              w <= 2 * r + i - (1 if i == 0 else 0),
+                                              Implies(R == r * P, w <= 2 * r), Implies(acc == 0, w <= 2 * r + 1))))
         return And(it >= 0, it <= p, Q >= 0, w >= 0, w <= L, *per_i)
 
     def variant(Lc):
@@ -270,8 +274,8 @@ def t_div_den(E, kind, power_of_two=False):
     if r.raised:
         return
     lexp, Q, neg = r.value
-    E.prove(Abs(2 * (Q * R) - L * (1 << p)) <= p * (1 << p),
-            'the quotient mantissa Q satisfies |2*Q*R - L*2^p| <= p*2^p: L/R scaled by 2^(p-1), within p/2 units')
+    E.prove(Abs(2 * (Q * R) - L * (1 << p)) < p * (1 << p),
+            'the quotient mantissa Q satisfies |2*Q*R - L*2^p| < p*2^p: L/R scaled by 2^(p-1), within less than p/2 units')
     E.prove(And(Q >= 0, Q < (1 << p)), 'the quotient fits the mantissa width')
     if power_of_two:
         E.prove(And(Q <= L, Q >= L - p), 'dividing by a power of two: the quotient mantissa is the dividend mantissa less the final remainder (at most p)')
@@ -288,7 +292,7 @@ def _div_den_contract(E, cls, seen=None):
         rexp, R, rneg = rden
         Q = E.fresh('quotient', 0, (1 << pw) - 1)
         acc = 2 * (Q * R) - L * (1 << pw)
-        E.assume(And(acc <= pw * (1 << pw), acc >= -pw * (1 << pw)))
+        E.assume(And(acc < pw * (1 << pw), acc > -pw * (1 << pw)))
         if seen is not None:
             seen['Q'] = Q
         return (lexp - rexp + cls._bias + 8 + 1 - pw, Q, Or(And(lneg, Not(rneg)), And(Not(lneg), rneg)))
@@ -407,17 +411,14 @@ def t_div(E, kind, band):
     # tolerance: half a unit of the rounding (128/256) plus the quotient's pw/2 units shifted by s
     sh = k if bool(no_carry) else k + 1
     tol_num, tol_den = 128 + pw * (1 << max(sh, 0)), 256
-    if tol_num < tol_den:
-        E.cover('less than 1 ulp')
-        label = 'within less than 1 ulp of the exact quotient (%d/256)' % tol_num
-    else:
-        E.cover('boundary tolerance')
-        label = 'within %d/256 ulp of the exact quotient, i.e. at most one unit (the strict "< 1 ulp" of the statement is only sampled for this case)' % tol_num
+    E.prove(tol_num <= tol_den, 'the rounding (half a unit) and the quotient tolerance add up to at most one unit on every path')
+    E.cover('less than 1 ulp')
+    label = 'within less than 1 ulp of the exact quotient (strictly below %d/256)' % tol_num
     if c >= 0:
-        E.prove(Abs(mr * my - mx * (1 << c)) * tol_den <= tol_num * my, label)
+        E.prove(Abs(mr * my - mx * (1 << c)) * tol_den < tol_num * my, label)
         E.canary(mr * my == mx * (1 << c), 'canary: quotient always exact')
     else:
-        E.prove(Abs(mr * my * (1 << -c) - mx) * tol_den <= tol_num * my * (1 << -c), label)
+        E.prove(Abs(mr * my * (1 << -c) - mx) * tol_den < tol_num * my * (1 << -c), label)
 
 
 # ---------------------------------------------------------------------------
@@ -597,4 +598,4 @@ ASSUMPTIONS = [
     'values.mul is verified against the contract of Float._denormalise (proved by task Float._denormalise), not its body',
     'products of two symbolic mantissas are z3 nonlinear integer terms (shared by code and spec)',
 ]
-NOT_COVERED = ['the strict "less than one unit" for / in the cases where the proved tolerance is exactly 256/256 ulp (double: quotient mantissa below 1; single: double normalisation shift): sampled only']
+NOT_COVERED = []
